@@ -44,6 +44,10 @@ func (app *App) mount(prefix string, subApp *App) Router {
 	if prefix == "" {
 		prefix = "/"
 	}
+	// the sub-app is recorded under the path its routes are registered under: with a leading slash
+	if prefix[0] != '/' {
+		prefix = "/" + prefix
+	}
 
 	// Support for configs of mounted-apps and sub-mounted-apps
 	for mountedPrefixes, subApp := range subApp.mountFields.appList {
